@@ -20,7 +20,10 @@ def parse_spot(
     **kwargs: Any,
 ) -> Tensor:
     spot = _as_optional_tensor(spot)
-    strike = _as_optional_tensor(strike)
+    if not isinstance(strike, Real):
+        # Keep a Python number as is: tensor * number keeps the tensor's dtype,
+        # while torch.as_tensor(1.3) would round the strike to the default dtype.
+        strike = _as_optional_tensor(strike)
     moneyness = _as_optional_tensor(moneyness)
     log_moneyness = _as_optional_tensor(log_moneyness)
 
